@@ -1472,6 +1472,28 @@ def r01_4b(ctx):
             E = op_local(d[3]["rv"]["op"])
         else:
             break
+    # the window may be computed by a private helper that returns (start, end): the analysis moves into the helper, to the
+    # local it returns in that position
+    for _ in range(2):
+        d = f.single_def(E) if E is not None else None
+        pl = op_place(d[3]["rv"]["op"]) if d and d[0] == "stmt" and d[3]["rv"]["k"] == "use" else None
+        if pl is None or not pl[1]:
+            break
+        ks = [e[1] for e in pl[1] if isinstance(e, list) and e[0] == "."]
+        td = f.single_def(pl[0])
+        h = prog.fns.get(td[2]["callee"]) if td and td[0] == "call" else None
+        if h is None or h.crate != "sonic_rs" or len(ks) != 1:
+            break
+        tup = [st for b, i, st in h.assigns() if st["lhs"] == [0, []] and st["rv"]["k"] == "agg" and len(st["rv"].get("f", [])) > ks[0]]
+        if len(tup) != 1 or op_local(tup[0]["rv"]["f"][ks[0]]) is None:
+            break
+        f, E = h, op_local(tup[0]["rv"]["f"][ks[0]])
+        for _ in range(6):
+            d2 = f.single_def(E)
+            if d2 and d2[0] == "stmt" and d2[3]["rv"]["k"] == "use" and op_local(d2[3]["rv"]["op"]) is not None:
+                E = op_local(d2[3]["rv"]["op"])
+            else:
+                break
     defs = [(b, i, st) for b, i, st in f.assigns() if st["lhs"] == [E, []]]
     if not defs and E is not None and _at_most_len(prog, f, E):
         # the end is computed by an expression / a helper whose every result is bounded by the slice length by construction
